@@ -417,3 +417,12 @@ m('C18-m3', 'C18', W + 'persistence/redb/mod.rs', """    table.remove(key)?;
 m('C13-m5', 'C13', W + 'lib.rs', """            tx.send(worterbuch.get(&key)).ok();""", """            let _ = (tx, worterbuch.get(&key));""", 'C13.i')
 m('C14-m4', 'C14', 'worterbuch-client/src/tcp.rs', """            error!("Error sending TCP message: {e}");
             break;""", """            error!("Error sending TCP message: {e}");""", 'C14.e')
+m('C20-m3', 'C20', 'worterbuch-client/src/lib.rs', """        let cmd = Command::CSet(key, value, version, tx);
+        debug!("Queuing command {cmd:?}");
+        self.commands.send(cmd).await?;
+        debug!("Command queued.");
+        rx.await??;""", """        let cmd = Command::CSet(key, value, version, tx);
+        debug!("Queuing command {cmd:?}");
+        self.commands.send(cmd).await?;
+        debug!("Command queued.");
+        rx.await?.ok();""", 'C20.g')
